@@ -8,6 +8,7 @@ CONSTANTS
   Faults <- CancelOnly
   MaxFaults = 1
   Stepped = FALSE
+  Dir = "fwd"
 CHECK_DEADLOCK FALSE
 INVARIANTS
   TypeOK
